@@ -44,7 +44,7 @@ REQUIRED_CLAUSES = ['L-large-second-chunk', 'O-carrier-and-options-invariance', 
                     'W-wrapper-verdict-invariance', 'actual-size']
 ASSUMPTIONS = ['ground truth for regions is the presented stream itself (slice semantics)',
                'known findings F1 F3 are attributed by input-only predicates (vlib/known.py, imagegen.vhdx_backward)']
-INTERPRETER_FLAGS = [[], ['-O'], [], ['-bb']]
+INTERPRETER_FLAGS = [[], ['-O'], ['-X', 'dev'], ['-bb']]
 SHARDS = {'quick': 8, 'thorough': 16}
 MIN_DISTINCT = {'quick': 2000, 'thorough': 20000}
 LEVEL_TEXT = ('Exploration with exact oracles: region contents are compared with the stream slice after every chunk, '
